@@ -183,12 +183,23 @@ class Gen:
         if op == "while":
             return ["while", self.block(ctx, owner, depth - 1, callees, True, False, must_yield=True)]
         if op == "try":
-            body = self.block(ctx, owner, depth - 1, callees, False, False)
-            nh = self.t.intrange(1, 3, "try.nh")
+            if ctx == "compose" and self.f.get("compose_try_waits_only"):
+                callees = []
+            # Two shapes of nested try-interrupt are known not to compile (findings
+            # nested-try-*): an inner statement with more handlers than an enclosing one,
+            # and break/continue inside an inner statement.  They are still generated,
+            # but rarely, so that most of the budget reaches the runtime.
+            stack = getattr(self, "try_stack", [])
+            avoid = bool(stack) and not self.t.chance(1, 8, "try.knownbad")
+            nh = self.t.intrange(1, min(stack) if avoid else 3, "try.nh")
+            inner_loop = False if avoid else in_loop
+            self.try_stack = stack + [nh]
+            body = self.block(ctx, owner, depth - 1, callees, inner_loop, False)
             hs = []
             for _ in range(nh):
-                hb = self.block(ctx, owner, depth - 1, callees, in_loop, True, must_yield=True)
+                hb = self.block(ctx, owner, depth - 1, callees, inner_loop, True, must_yield=True)
                 hs.append([self.table("cond"), hb])
+            self.try_stack = stack
             # break/continue inside try blocks refer to the loop enclosing the statement
             return ["try", body, hs]
         if op == "override":
@@ -227,7 +238,10 @@ class Gen:
             name = scn_names[i]
             top = i == 0
             d = {"name": name}
-            self.guards(d)
+            if top and not modular:
+                d["pre"], d["inv"] = [], []  # a flat top level cannot carry guards
+            else:
+                self.guards(d)
             setup = []
             na = self.rng("n_agents") if top else t.intrange(0, 2, "sub.nagents")
             myobjs = []
